@@ -144,6 +144,10 @@ def make_call(rng, entry, pattern, str_dtype=False, big=False):
             'out_sim_score': rng.random() < 0.7}
     if rng.random() < 0.06:
         call['show_progress'] = True
+    if rng.random() < 0.25:
+        # (an empty prefix is valid: the key names of the two tables differ)
+        call['l_out_prefix'], call['r_out_prefix'] = rng.choice([('', 'r_'), ('l_', ''), ('', ''), ('left.', 'right.'),
+                                                                 ('l%', 'r%%')])
     if entry in T.JOINS:
         call['api'] = entry
         if entry == 'overlap_join':
